@@ -230,8 +230,9 @@ namespace ratio
             lits.push_back(bex->l);
         bool_expr xp = new bool_item(*this, get_sat_core().new_disj(lits));
 
-        if (xprs.size() > 1) // we create a new var flaw..
-            new_flaw(*new disj_flaw(*this, get_cause(), std::move(lits)));
+        // we create a new disj flaw, which is active only if the disjunction holds (there is nothing to choose if the disjunction has been simplified into a constant or into one of its literals)..
+        if (xprs.size() > 1 && variable(xp->l) != FALSE_var && std::find(lits.cbegin(), lits.cend(), xp->l) == lits.cend())
+            new_flaw(*new disj_flaw(*this, get_cause(), xp->l, std::move(lits)));
 
         return xp;
     }
